@@ -229,13 +229,16 @@ func (m *observerManager) RemoveObserver(o *Observer) {
 	observers := m.observers[o.event]
 	observers[idx].id = maxObserverID
 
+	// Copy on write, as this may be called from an observer callback
+	// while the dispatch loop iterates the old slice.
 	last := uint32(len(observers) - 1)
+	newObservers := make([]*observerData, last)
+	copy(newObservers, observers[:last])
 	if idx != last {
-		observers[idx], observers[last] = observers[last], observers[idx]
-		m.indices[observers[idx].id] = idx
+		newObservers[idx] = observers[last]
+		m.indices[newObservers[idx].id] = idx
 	}
-	observers[last] = nil
-	m.observers[o.event] = observers[:last]
+	m.observers[o.event] = newObservers
 	m.hasObservers[o.event] = last > 0
 	m.totalCount--
 
